@@ -1,4 +1,5 @@
-# C05 -- graph stays structurally consistent under any operations and threads (graph_engine/src/lib.rs)
+# C05 -- graph stays structurally consistent under any operations and threads
+# (graph_engine/src/lib.rs over tensor_store/src/metadata_slab.rs)
 CFG = dict(
     dirs=["Common", "C05"], gen=False,
     run_targets=["C05/Run.vo"], proof_targets=["C05/Props.vo"], props="C05/Props.v",
@@ -6,10 +7,19 @@ CFG = dict(
     crate="nvh_c05",
     header=H + "From NV.C05 Require Import Model Run.\nOpen Scope N_scope.",
     kinds={"seq": ("seq_case", "check_seq"), "conc": ("conc_case", "check_conc")},
-    known_classes={},
+    known_classes={0: "concurrent-delete-node"},
     shard=10,
-    rule="seeded op sequences",
-    trusted_base=COMMON_TB + [],
-    assumptions=[],
+    rule="seeded sequences of create_node/create_edge (directed, undirected, self-loops, parallel)/delete_edge/delete_node/update_node/update_edge on 1-8 nodes incl. missing ids, observed through the public reads after every operation; 2-8 threads behind a barrier on a shared engine (hub creations, creations + deletions/updates of overlapping setup edges, mixes with node deletions), observed at quiescence; delete_node above the rayon threshold",
+    trusted_base=COMMON_TB + [
+        "modelled, not verified: the store as four association lists (node keys, out lists, in lists, edge records); one store.get/put/delete = one atomic step (metadata_slab takes the shard lock per call); with the per-key adjacency lock (commit c34d16e7) add_edge_to_list/remove_edge_from_list are single atomic steps; HashSet iteration order in delete_node is fixed to list order (the final state does not depend on it); property indexes, labels, constraints, timestamps and the legacy e* list format are outside the model",
+        "the hardware memory model below parking_lot locks and the rayon scheduler are not modelled; the stress runs exercise them",
+    ],
+    assumptions=[
+        "concurrent theorem: threads run edge creations (ids handed out by the atomic counter, endpoints present throughout) and deletions of edges that exist; interleavings involving delete_node are covered by the stress oracle only and fall in known class concurrent-delete-node when they fail",
+        "a client deleting/updating an edge id that another thread's create_edge has not yet returned is not generated (ids are only known after create_edge returns)",
+    ],
 )
-MANIFEST = dict(text="", note="")
+MANIFEST = dict(
+    text="Sequential: Consistent (every edge listed by both endpoints in the right lists, every listed edge exists and touches the lister, endpoints exist, no duplicates) is a Coq invariant of every operation sequence of the store-level model, delete_node removes exactly the incident edges, and the adjacency lists are exactly what the edge set implies. Concurrent: for any number of threads running edge creations/deletions with atomic read-modify-write per adjacency key, every interleaving of the atomic store steps ends consistent with exactly the old-minus-deleted-plus-created edges (theorem over all interleavings); without that atomicity lost_update_refuted, and with a concurrent delete_node delete_node_race_refuted (known finding). The model is compared with the real GraphEngine after every operation of seeded sequences and at quiescence of 2-8 thread runs; the Consistent oracle is evaluated on the engine's public reads.",
+    note="Trusted: Coq kernel, harness + driver. Modelled not verified: store as association lists, one store call = one atomic step, parking_lot/rayon/hardware memory model; property indexes and constraints outside the model. Fixed in /repo: per-key lock around adjacency read-modify-write (c34d16e7). Known finding: concurrent delete_node vs create_edge on the same node.",
+)
